@@ -339,3 +339,65 @@ def rule_operation_on_values(db: ProgramDB) -> List[Instance]:
                         f"not_(contains('', '')) holds, a container that is empty by `__len__` but answers `in` is said not to contain" if bad is not None else
                         "the operands are only handed to the operator", line=(bad or f.node).lineno))
     return out
+
+
+# ---------------------------------------------------------------------------------- ROW-NOT-MEMOISED
+def _row_memo(fnode: ast.AST) -> Optional[Tuple[str, ast.AST, ast.AST]]:
+    """(attribute, the statement that keeps a row in it, the statement that hands the kept row out) if the function keeps a row it produced in an
+    attribute of self and hands out what it kept on another call."""
+    handed: Set[str] = set()
+    for x in ast.walk(fnode):
+        if isinstance(x, (ast.Return, ast.Yield)) and x.value is not None:
+            handed |= {n.id for n in ast.walk(x.value) if isinstance(n, ast.Name)}
+    # locals copied from / into handed-out names
+    changed = True
+    flows: Dict[str, Set[str]] = {}
+    for a in ast.walk(fnode):
+        if isinstance(a, ast.Assign) and len(a.targets) == 1 and isinstance(a.targets[0], ast.Name):
+            flows.setdefault(a.targets[0].id, set()).update(n.id for n in ast.walk(a.value) if isinstance(n, ast.Name))
+    kept = {}
+    for a in ast.walk(fnode):
+        if isinstance(a, ast.Assign):
+            for t in a.targets:
+                if isinstance(t, ast.Attribute) and isinstance(t.value, ast.Name) and t.value.id == "self":
+                    names = {n.id for n in ast.walk(a.value) if isinstance(n, ast.Name)}
+                    if names & handed and not isinstance(a.value, (ast.Compare, ast.BoolOp, ast.UnaryOp, ast.Constant)):
+                        kept[t.attr] = a
+    for attr, keep in kept.items():
+        for a in ast.walk(fnode):
+            reads = [x for x in ast.walk(a) if isinstance(x, ast.Attribute) and x.attr == attr and isinstance(x.value, ast.Name) and x.value.id == "self"
+                     and isinstance(x.ctx, ast.Load)] if isinstance(a, (ast.Return, ast.Yield, ast.Assign)) else []
+            if not reads:
+                continue
+            if isinstance(a, (ast.Return, ast.Yield)):
+                return attr, keep, a
+            if isinstance(a, ast.Assign) and any(isinstance(t, ast.Name) and t.id in handed for t in a.targets):
+                return attr, keep, a
+    return None
+
+
+def rule_row_not_memoised(db: ProgramDB) -> List[Instance]:
+    """An expression is evaluated once per row of whatever encloses it, each time under another binding.  What it hands out for one binding is
+    not what it hands out for the next: an evaluation method keeps no row it produced in an attribute of the node to hand it out again (the
+    result caches are keyed by the binding; an un-keyed memo is right only as long as the expression mentions no variable of the enclosing
+    query - a correlated `the(...)` tested against the solution found for the first binding)."""
+    probe = ast.parse("def _evaluate_(self, sources):\n    if self._s_ is not None:\n        r = copy(self._s_)\n        return r\n    r = compute(sources)\n    self._s_ = r\n    return r\n").body[0]
+    if _row_memo(probe) is None or _row_memo(ast.parse("def f(self, s):\n    self._flag_ = s is None\n    r = g(s)\n    return r\n").body[0]) is not None:
+        raise AnalysisError("ROW-NOT-MEMOISED: the detector fails on its own examples")
+    out = []
+    se = db.cls("SymbolicExpression")
+    n = 0
+    for c in sorted([se] + se.all_subclasses(), key=lambda k: k.qualname):
+        for name, m in sorted(c.methods.items()):
+            if m.cls is not c or not is_eval_method_name(name):
+                continue
+            n += 1
+            hit = _row_memo(m.node)
+            if hit is not None:
+                attr, keep, give = hit
+                out.append(inst("ROW-NOT-MEMOISED", VIOLATION, m, f"{m.short}[self.{attr}]",
+                                f"`{unparse(keep)[:60]}` keeps the row this call produced and `{unparse(give)[:60]}` hands the kept row out on a later call, whatever the binding "
+                                f"that call is made under: an operand that mentions a variable of the enclosing query (a correlated the(...)) is answered with the solution "
+                                f"found for the first binding", line=give.lineno))
+    out.append(inst("ROW-NOT-MEMOISED", HOLDS, se, "evaluation methods[no un-keyed memo of rows]", f"{n} evaluation methods examined"))
+    return out
